@@ -48,7 +48,7 @@ class C15(Check):
     )
     assumptions = [
         "environment stubs: terminal size getter, TIOCGWINSZ ioctl (pixel size, possibly 0 = unknown), query_terminal (answers with the terminal's identity when queries are enabled, None when disabled; the XTWINOPS fallback gets no answer)",
-        "pixel size changes only together with the size in cells or one of the toggles (documented caching per terminal size)",
+        "pixel size changes only together with the size in cells, a window-size-swap toggle or the re-enabling of queries (documented caching per terminal size)",
         "thread interleavings (part cached_threads, harness/C15b.py): the control skeleton of utils.cached is translated from the current source into micro-ops and all interleavings of <= 3 (4) caller threads with solver-chosen argument tuples (2 distinct values) and an optional invalidating thread are decided by z3 (finite-domain BMC); re-entrant mutex model of threading.RLock; interleaving granularity = lock operations, cache look-ups / stores, body entry / exit; terminal_size_cached's wrapper is not part of the interleaving model",
     ]
     bounds = {"quick": {"steps": 4}, "thorough": {"steps": 6}}
@@ -66,7 +66,7 @@ class C15(Check):
                 out.append({"steps": k, "first": first, "second": second})
         from . import C15b
 
-        return out + C15b.shapes(tier)
+        return out + C15b.shapes(tier) + [{"part": "terminal_size_cached", "steps": 3 if tier == "quick" else 5}]
 
     def setup(self, shape, concrete):
         import term_image
@@ -76,6 +76,10 @@ class C15(Check):
         self.ti, self.utils, self.common, self.BlockImage = term_image, utils, common, BlockImage
 
     def body(self, eng, shape):
+        if shape.get("part") == "terminal_size_cached":
+            from . import C15b
+
+            return C15b.tsc_body(self, eng, shape)
         if shape.get("part") == "cached_threads":
             from . import C15b
 
@@ -184,12 +188,16 @@ class C15(Check):
                     eng.assume(core.sym_implies(same_cells, sym_and(T["xpix"] == old["xpix"], T["ypix"] == old["ypix"])))
             elif name == "toggle_swap":
                 (ti.disable_win_size_swap if utils._swap_win_size else ti.enable_win_size_swap)()
+                # a pixel-size change may coincide with the toggle (same size in cells)
+                T = dict(T, xpix=eng.int(f"xpix_at_toggle{i}", 0, B), ypix=eng.int(f"ypix_at_toggle{i}", 0, B))
             elif name == "toggle_queries":
                 if utils._queries_enabled:
                     ti.disable_queries()
                 else:
                     ti.enable_queries()
                     name_cache[0] = kitty_cache[0] = "unset"  # results obtained while disabled are discarded
+                    # ... including the cell size: a pixel-size change may coincide with re-enabling (same size in cells)
+                    T = dict(T, xpix=eng.int(f"xpix_at_toggle{i}", 0, B), ypix=eng.int(f"ypix_at_toggle{i}", 0, B))
             elif name == "set_cell_ratio":
                 k = eng.choice(f"ratio_kind{i}", 3)
                 try:
